@@ -613,6 +613,10 @@ class Scores:
     ):
         scores = scores.astype(float)  # Otherwise we can get problems with nextafter
 
+        # Targets at or beyond the upper end of the scale always map to the threshold
+        # just above the largest score; this has to be decided before the shift below.
+        at_upper_end = target_ratio >= 1.0
+
         if not left_continuous:
             min_ratio = 1.0 / len(scores)
             target_ratio = target_ratio - min_ratio
@@ -636,7 +640,7 @@ class Scores:
 
         # Special cases of TPR <= 0. and TPR >= 1.
         threshold[target_ratio <= 0.0] = np.nextafter(scores[0], -np.inf)
-        threshold[target_ratio >= 1.0] = np.nextafter(scores[-1], np.inf)
+        threshold[at_upper_end] = np.nextafter(scores[-1], np.inf)
 
         return threshold
 
